@@ -1,7 +1,7 @@
 (** C19 — what the check evaluates: the certificate checkers applied to the implementation's
     outputs ([c_*], the decision), the finding classes ([k_*]). *)
 From Coq Require Import ZArith List Bool.
-From GV Require Export Algo.Cert Algo.Model.
+From GV Require Export Algo.Cert Algo.CertStruct Algo.Model Algo.ModelPr.
 Import ListNotations.
 Open Scope Z_scope.
 
@@ -46,7 +46,17 @@ Definition c_flow := flow_cert.
 Definition c_hops (g : graph) (s t : Z) d paths (ans : option Z) : bool :=
   memb t (nodes g) && sssp_cert g s d paths && oz_eqb (lookup d t) ans.
 
-(** * finding classes *)
+(** structure algorithms and PageRank (CertStruct.v): the implementation's outputs against the executable specifications *)
+Definition c_tri := tri_cert.
+Definition c_lcc := lcc_cert.
+(** core numbers + max_core of kcore_decomposition(), and the node list of k_core(2) *)
+Definition c_kcore (g : graph) (c : list (Z * Z)) (maxc : Z) (k2 : list Z) : bool :=
+  kcore_cert g c maxc && kcore_list_cert g c 2 k2.
+Definition c_bridges := bridges_cert.
+Definition c_artic := artic_cert.
+Definition c_pagerank := pr_cert.
+
+(** * finding classes (all five findings are repaired in /repo; the classes are kept for the _pre theorems) *)
 (** K1 (Kruskal): two edges join the same pair of distinct nodes (in either direction) with different weights *)
 Definition k_parallel_diffw (g : graph) : bool :=
   existsb (fun a => negb (esrc a =? edst a) &&
